@@ -141,6 +141,17 @@ def _c03_specs(tier):
     return sp
 
 
+def _c03_count_runs(tier):
+    r = []
+    fr = [(2, 0, 2, 3), (3, 0, 1, 1), (1, 1, 1, 1)] if tier == 'quick' else [(2, 0, 3, 8), (3, 0, 2, 8), (1, 1, 2, 2), (0, 0, 3, 2), (4, 0, 2, 1)]
+    for a, g, dev, nsh in fr:
+        for i in range(nsh):
+            r.append(dict(h='mc_chunk', label='c03-count-a%d-g%d-dev%d-shard%d' % (a, g, dev, i),
+                          args=['--props', 'C03', '--audio', str(a), '--gram', str(g), '--dev', str(dev), '--menu', 'frames', '--uniform', '1',
+                                '--shard', '%d/%d' % (i, nsh)]))
+    return r
+
+
 def _c02_specs(tier):
     sp = []
     variants = [('f1a1', []), ('f0a1', ['--filler', '0']), ('f1a0', ['--alt', '0']),
@@ -570,13 +581,17 @@ CHECKS = {
     'C03': dict(
         title='word segmentation tiles the utterance and agrees with hypothesis and score',
         level='exploration',
-        runs={'quick': _dec_runs('C03', _c03_specs('quick')), 'thorough': _dec_runs('C03', _c03_specs('thorough'))},
+        runs={'quick': _dec_runs('C03', _c03_specs('quick')) + _c03_count_runs('quick'),
+              'thorough': _dec_runs('C03', _c03_specs('thorough')) + _c03_count_runs('thorough')},
         budget_s={'quick': 400, 'thorough': 3000},
         coverage=ex_cov,
         rule='grammars x routes x utterances (including 0, 1, 2, 3-frame ones) x {one call; frame-sized chunks with a partial result after '
              'each chunk}; on every partial and final result: segments contiguous from frame 0, positive length, within the frames searched, '
              'null segments zero-length at the preceding boundary, sum(ascr+lscr) == path score, lscr == an arc weight, hypothesis == base '
-             'forms of non-filler segments, frames returned by processing calls + end_utt == frames the front end makes of the samples',
+             'forms of non-filler segments, frames returned by processing calls + end_utt == frames the front end makes of the samples. '
+             'Frame accounting also on REAL audio up to 2.8 s (mc_chunk --props C03): for every call pattern with <= 1-2 deviations over the '
+             'frame-count cut menu and every uniform chunking (int16 and float32 entry, buffering, zero-length calls, partial queries) each call '
+             'must return exactly the number of frames scored during it and the total must be the utterance',
         assumptions=DEC_ASSUME + ['a leading null segment is reported at frame -1 (boundary before frame 0): accepted as "preceding boundary"'] + TRUST,
     ),
     'C05': dict(
